@@ -194,12 +194,14 @@ class CFG:
 
     def _stmt(self, st: ast.stmt, preds: list) -> list:
         if isinstance(st, ast.If):
+            self.owner.setdefault(id(st), self._next)  # the statement itself maps to its first condition atom
             t, f = self._cond(st.test, preds, st)
             out = self._seq(st.body, t)
             out2 = self._seq(st.orelse, f) if st.orelse else f
             return list(out) + list(out2)
         if isinstance(st, (ast.For, ast.AsyncFor)):
             h = self._new("for", st, st)
+            self.owner.setdefault(id(st), h.id)
             self._own(h.id, st.target, st.iter)
             self._link(preds, h.id)
             self._exc_edges(h.id)
@@ -218,6 +220,7 @@ class CFG:
             return [brk.id]
         if isinstance(st, ast.While):
             head = self._new("join", None, st)
+            self.owner.setdefault(id(st), head.id)
             self._link(preds, head.id)
             t, f = self._cond(st.test, [head.id], st)
             brk = self._new("join", None, st)
@@ -234,6 +237,7 @@ class CFG:
             return [brk.id]
         if isinstance(st, (ast.With, ast.AsyncWith)):
             en = self._new("with_enter", st, st)
+            self.owner.setdefault(id(st), en.id)
             for it in st.items:
                 self._own(en.id, it.context_expr, it.optional_vars)
             self._link(preds, en.id)
@@ -251,6 +255,7 @@ class CFG:
                 self._own(hn.id, h.type)
                 handlers.append(hn.id)
             tryin = self._new("join", None, st)
+            self.owner.setdefault(id(st), tryin.id)
             self._link(preds, tryin.id)
             self._handler_stack.append(handlers)
             for h in handlers:
